@@ -284,12 +284,16 @@ def check_start(case):
     # a main molecule whose residue ids restart (S1 S2 B1 B2: name and id together identify the residue)
     for label, sysd, main, main_res in (("plain", SYS, "CH4", [("S", 1), ("B", 2), ("S", 3), ("B", 4)]),
                                         ("zero", dict(SYS, resid_from_zero=True), "CH4", [("S", 0), ("B", 1), ("S", 2), ("B", 3)]),
-                                        ("dup", sys_dup, "DUPB", [("S", 1), ("S", 2), ("B", 1), ("B", 2)])):
-        names = {main: [0, 3, 4], "W": [1, 2]}
-        resinfo = {main: main_res, "W": [("W", 0 if label == "zero" else 1)]}
+                                        ("dup", sys_dup, "DUPB", [("S", 1), ("S", 2), ("B", 1), ("B", 2)]),
+                                        # molecule names that contain each other: CH is a one-residue molecule, CH4 the chain
+                                        ("nested-names", dict(SYS, types=["CH4", "CH"], molecules=[("CH4", 1), ("CH", 2), ("CH4", 2)], typedefs={"CH": G.TYPES["W"]}),
+                                         "CH4", [("S", 1), ("B", 2), ("S", 3), ("B", 4)])):
+        other = "CH" if label == "nested-names" else "W"
+        names = {main: [0, 3, 4], other: [1, 2]}
+        resinfo = {main: main_res, other: [("W", 0 if label == "zero" else 1)]}
         with H.tempdir() as d:
             base = read_top(d, sysd)
-            for molname, idx in ((main, 0), (main, 3), (main, 4), ("W", 2)):
+            for molname, idx in ((main, 0), (main, 3), (main, 4), (other, 2)):
                 for r, (resname, resid) in enumerate(resinfo[molname]):
                     for use, spec in spec_strings(molname, idx, resname, resid):
                         if not use[0] and not use[1]:
@@ -305,7 +309,7 @@ def check_start(case):
                         mols = [idx] if use[1] else names[molname]
                         want = {mi: None for mi in range(NMOL)}
                         for mi in mols:
-                            mname = main if mi in names[main] else "W"
+                            mname = main if mi in names[main] else other
                             cands = [rr for rr, (rn, rid) in enumerate(resinfo[mname]) if (not use[2] or rn == resname) and (not use[3] or rid == resid)]
                             want[mi] = cands[0] if cands else None
                         if got != want and len(viols) < 20:
